@@ -43,7 +43,7 @@ def run_witness(unit, failed_ids, seed, timeout=900):
         out = p.stdout + p.stderr
         res = []
         for m in re.finditer(r'WITNESS (\S+) :: (.*)$', out, flags=re.M):
-            res.append({'unit': unit, 'obligation_label': m.group(1), 'input': m.group(2)[:1500],
+            res.append({'unit': unit, 'obligation_label': cfg.get('label_override') or m.group(1), 'input': m.group(2)[:1500],
                         'cmd': ' '.join(cmd) + f'  (scratch copy of /repo with units/{unit}/{cfg["test_file"]} appended to {cfg["inject_into"]})'})
         if 'WITNESS-SEARCH-DONE' not in out:
             raise RuntimeError('witness harness did not run: ' + out[-600:])
